@@ -1,5 +1,6 @@
 import KoordVerif.Common.Proto
 import KoordVerif.Model.C13
+import KoordVerif.Model.C13Handle
 /-
 Driver for C13.  All tokens after the op kind are integers.
 
@@ -11,6 +12,13 @@ Driver for C13.  All tokens after the op kind are integers.
   mutate <create> <gateSkipRes> <rand>    -> observation block of slot 0 after
                                              clusterColocationProfileMutatingPod + mutateByExtendedResources;
                                              slot 0 := result (a second `mutate` re-admits it)
+  probstr <name> LSTR                     spec.probability of profile <name> is the STRING LSTR (parsed by the model)
+  handle <op> <sub> <isPods> <hasObj> <gateSkipRes> <rand>
+                                          -> `hresp 0` (rejected) | `hresp 1` + observation block of the pod the API server
+                                             STORES for slot 0 (PodMutatingHandler.Handle + JSON patch); slot 0 is kept.
+                                             op: 0 CREATE 1 UPDATE 2 DELETE 3 CONNECT; sub: 0 = no sub-resource
+  hvalidate <op> <sub> <isPods> <hasObj> <hasOld> <oldDeleting> <newDeleting> <finalizers> <statusOnly> <gateSkipPriority>
+                                          -> `hverdict <0|1>` (PodValidatingHandler.Handle admits; slot 0 = object, 1 = old object)
   POD  = LSTR(qos label) LSTR(priority-class label) LSTR(c13/src label) <hasPrio> <prio> <hasSub> <sub> <statusQoS>
          <ANNOT> <nInit> <nCtr> <hasOv> <hasPodRes> CTR* [RL(overhead)] [RL(pod requests) RL(pod limits)]
   LSTR = -1 (absent) | <n> <byte>*        key: 0 qos 1 priority-class 2 c13/src
@@ -251,6 +259,10 @@ def showPod (p : Pod) : List String :=
    match p.podRes with | some (rq, lm) => s!"pl 1 {showRL rq} {showRL lm}" | none => "pl 0",
    showAnnot p.annot]
 
+def opOfCode (c : Int) : Option Op :=
+  if c = 0 then some .create else if c = 1 then some .update else if c = 2 then some .delete
+  else if c = 3 then some .connect else none
+
 structure St where
   cur : Option Pod := none
   old : Option Pod := none
@@ -281,6 +293,38 @@ def stepLine (st : St) (line : String) : St × List String :=
       let old := st.old.getD new
       if op = 1 ∧ st.old.isNone then (st, ["bad-op"]) else
       (st, [s!"verdict {b2i (validateAllowed stdRanges (gate ≠ 0) op.toNat old new)}"])
+    | _, _ => (st, ["bad-op"])
+  | "probstr" :: rest =>
+    match ints? rest with
+    | some (name :: ts) =>
+      match pLStr ts with
+      | some (some v, []) =>
+        if st.profiles.any (fun pr => (pr.name : Int) = name) then
+          ({ st with profiles := st.profiles.map (fun pr =>
+              if (pr.name : Int) = name then pr.withProbability (some (.str v)) else pr) }, [])
+        else (st, ["bad-op"])
+      | _ => (st, ["bad-op"])
+    | _ => (st, ["bad-op"])
+  | "handle" :: rest =>
+    match ints? rest, st.cur with
+    | some [op, sub, isPods, hasObj, gate, rand], some p =>
+      match opOfCode op with
+      | none => (st, ["bad-op"])
+      | some o =>
+        let e : Envelope := { op := o, subresource := sub ≠ 0, isPods := isPods ≠ 0, hasObject := hasObj ≠ 0, hasOld := false }
+        match handleMutating stdRanges e (gate ≠ 0) rand st.profiles p with
+        | none => (st, ["hresp 0"])
+        | some q => (st, "hresp 1" :: showPod q)
+    | _, _ => (st, ["bad-op"])
+  | "hvalidate" :: rest =>
+    match ints? rest, st.cur with
+    | some [op, sub, isPods, hasObj, hasOld, od, nd, fin, so, gate], some new =>
+      match opOfCode op with
+      | none => (st, ["bad-op"])
+      | some o =>
+        let e : Envelope := { op := o, subresource := sub ≠ 0, isPods := isPods ≠ 0, hasObject := hasObj ≠ 0, hasOld := hasOld ≠ 0 }
+        let sh : ObjShape := { oldDeleting := od ≠ 0, newDeleting := nd ≠ 0, finalizers := fin ≠ 0, statusOnly := so ≠ 0 }
+        (st, [s!"hverdict {b2i (handleValidating stdRanges e sh (gate ≠ 0) (st.old.getD new) new)}"])
     | _, _ => (st, ["bad-op"])
   | "mutate" :: rest =>
     match ints? rest, st.cur with
